@@ -61,12 +61,12 @@ def run(chk, build):
     sjobs = []
     pairs = [("g", "h"), ("h", "g"), ("g", "i"), ("i", "h"), ("e", "f"), ("a", "c"), ("b", "d"), ("j", "k")] if tier == "quick" else list(itertools.permutations(PIPE, 2))
     for pa, pb in pairs:
-        for j in range(1, 13 if tier == "quick" else 41):
+        for j in range(1, 25 if tier == "quick" else 61):
             sjobs.append(((pa, pb), [[0, j], [1, 10 ** 6]]))
     # three segments: A stopped at its j-th point, B at its k-th, A runs to its end while B is still inside its own render
     for pa, pb in ([("j", "k"), ("k", "j"), ("j", "j")] if tier == "quick" else pairs):
-        for j in (range(3, 8) if tier == "quick" else range(1, 25, 2)):
-            for k in (range(3, 8) if tier == "quick" else range(1, 25, 3)):
+        for j in (range(3, 18, 3) if tier == "quick" else range(1, 40, 2)):
+            for k in (range(3, 18, 3) if tier == "quick" else range(1, 40, 3)):
                 sjobs.append(((pa, pb), [[0, j], [1, k], [0, 10 ** 6]]))
     for (names, segs), res in clirun.parallel(scheduled, sjobs, workers=8):
         chk.count(key=("sched", names, json.dumps(segs)), sample={"threads": list(names), "schedule": segs} if len(chk.samples) < 4 else None)
